@@ -53,7 +53,7 @@ def run(pid, tier, seed):
     with ThreadPoolExecutor(max_workers=6) as ex:
         gf = [ex.submit(gen, j) for j in jobs(tier, pid)]
         tf = ex.submit(vlib.validate_trace_resync, "IprScopesTrace", tp, ["ScInvariant"], pid, 4, is_start,
-                       {"NNames": rn, "NT": rt}, 3000)
+                       {"NNames": rn, "NT": rt, "WithSpec": "FALSE"}, 3000)
         gr = [f.result() for f in gf]
         tr = tf.result()
 
@@ -80,7 +80,7 @@ def run(pid, tier, seed):
         for f in r["fails"]:
             part = f["key"].split(":")[1]
             # read-back of what a declaration was given (name, type, aliasee) is C02's; its place in the scope is C07's
-            if (part not in ("init", "n", "t")) if pid == "C02" else (part == "init"):
+            if (part not in ("init", "n", "t", "spec")) if pid == "C02" else (part in ("init", "spec")):
                 foreign += 1
                 continue
             if f["key"] in seen:
